@@ -162,7 +162,9 @@ void optional_unary()
             return opt{std::move(t)};
           });
           x.disarm();
-          VRT_CHECK(calls == (p ? 0 : 1), x.op() + ":alternative_calls", "second alternative evaluated %d times", calls);
+          // whether the second alternative is evaluated when it is not needed is not promised: information only
+          if (calls != (p ? 0 : 1))
+            vrt::count("info:" + x.op() + ":second_alternative_evaluated_although_not_needed");
           x.result_is(r, p ? ids_of(o) : alt ? std::vector<int>{fresh} : std::vector<int>{});
           x.after("optional", o);
         });
@@ -262,7 +264,8 @@ void optional_misc()
         return t;
       });
       x.disarm();
-      VRT_CHECK(calls == p, x.op() + ":calls", "function called %d times", calls);
+      if (calls != p) // not promised: information only
+        vrt::count("info:" + x.op() + ":function_calls_differ_from_is_set");
       x.result_is(r, p ? std::vector<int>{fresh} : std::vector<int>{});
     });
     for_cat([&](auto c) {
